@@ -929,6 +929,58 @@ def _mentions(n, name):
     return n == name
 
 
+def _body_of(st):
+    return [s for s in (st[1] if st[0] == 'block' else [st]) if s != ('block', []) and s != ('using',)]
+
+
+def _assigns(node, name):
+    """does the tree assign / increment the variable `name`?"""
+    if isinstance(node, tuple):
+        if node[:1] == ('assign',) and node[2] == ('id', name):
+            return True
+        if node[:1] in (('un',), ('post',)) and len(node) >= 3 and node[1] in ('++', '--') and node[2] == ('id', name):
+            return True
+        return any(_assigns(x, name) for x in node)
+    if isinstance(node, list):
+        return any(_assigns(x, name) for x in node)
+    return False
+
+
+def index_to_range(st, bounds_of):
+    """for (T i = 0; i < N; ++i) { auto[&] x = C[i]; REST }   with N a spelling of C.size()  (bounds_of(C)), i not written by REST
+       ==>   T i = 0; for (x : C) { REST; ++i; }      (what the function was before such a rewrite; same visits, same i)"""
+    if isinstance(st, list):
+        out = []
+        for x in st:
+            r = index_to_range(x, bounds_of)
+            out.extend(r if isinstance(r, list) else [r])
+        return out
+    if not isinstance(st, tuple):
+        return st
+    if st[0] == 'block':
+        return ('block', index_to_range(st[1], bounds_of))
+    if st[0] == 'rangefor':
+        return st[:3] + (index_to_range(st[3], bounds_of),)
+    if st[0] == 'if':
+        return st[:3] + (index_to_range(st[3], bounds_of), index_to_range(st[4], bounds_of) if st[4] is not None else None)
+    if st[0] == 'for':
+        body = index_to_range(st[4], bounds_of)
+        st = st[:4] + (body,)
+        if (st[1] and st[1][0] == 'decl' and len(st[1][2]) == 1 and st[1][2][0][1] == ('num', 0) and st[2] and st[2][0] == 'bin'
+                and st[2][1] in ('<', '!=')):
+            i = st[1][2][0][0]
+            b = _body_of(body)
+            if (st[2][2] == ('id', i) and st[3] in (('un', '++', ('id', i)), ('post', '++', ('id', i)), ('assign', '+=', ('id', i), ('num', 1)))
+                    and b and b[0][0] == 'decl' and len(b[0][2]) == 1 and b[0][2][0][1] is not None and b[0][2][0][1][0] == 'index'
+                    and b[0][2][0][1][2] == ('id', i) and re.sub(r'\s|const', '', b[0][1]) in ('auto', 'auto&', 'auto*')):
+                C = b[0][2][0][1][1]
+                if st[2][3] in bounds_of(C) and not _assigns(b[1:], i) and not _mentions(b[1:], 'continue') and not _mentions(b[1:], 'break'):
+                    return [st[1], ('rangefor', b[0][2][0][0], C, ('block', b[1:] + [('expr', ('un', '++', ('id', i)))]))]
+        return st
+    return st
+
+
+
 EXPAND_ALIASES = True       # a translator that reads the aliases itself (vptrctor.py) switches this off
 INLINE_LAMBDAS = True       # a translator that gives the local lambdas a meaning of their own (deferred.py) switches this off
 
